@@ -362,6 +362,122 @@ func genCase0(front string) func(t *rapid.T) Case {
 	}
 }
 
+// GHCase: a pigeonhole formula (holes+1 pigeons) in which every clause carries one of 1..3 guard literals. Because the
+// pigeonhole formula is minimally unsatisfiable, the conjunction with the unit clauses added so far is unsatisfiable
+// exactly when every guard has been falsified: the verdict of every Solve is known by construction, and the last
+// ones need hundreds to thousands of conflicts (restarts, clause-database reductions) on a solver that has already
+// solved and been extended.
+type GHCase struct {
+	Holes   int   `json:"holes"`
+	Guards  int   `json:"guards"`
+	GuardOf []int `json:"guard_of"` // guard (0-based) carried by each clause, cyclic
+	Order   []int `json:"order"`    // the guards are falsified in this order, one unit clause each
+	Extra   []int `json:"extra"`    // after guard k is falsified, a clause over a new variable is added too when Extra[k] != 0
+	NbMax   int   `json:"nbmax,omitempty"`
+}
+
+func checkGH(c GHCase, o *vf.Obs) error {
+	gs.Arm(c.NbMax, 200_000_000)
+	defer gs.Arm(0, 0)
+	holes, pigeons := c.Holes, c.Holes+1
+	np := pigeons * holes
+	v := func(p, h int) int { return p*holes + h + 1 }
+	var cls [][]int
+	for p := 0; p < pigeons; p++ {
+		var cl []int
+		for h := 0; h < holes; h++ {
+			cl = append(cl, v(p, h))
+		}
+		cls = append(cls, cl)
+	}
+	for h := 0; h < holes; h++ {
+		for p := 0; p < pigeons; p++ {
+			for q := p + 1; q < pigeons; q++ {
+				cls = append(cls, []int{-v(p, h), -v(q, h)})
+			}
+		}
+	}
+	usedGuard := make([]bool, c.Guards)
+	for i := range cls {
+		g := c.GuardOf[i%len(c.GuardOf)] % c.Guards
+		usedGuard[g] = true
+		cls[i] = append(cls[i], np+1+g)
+	}
+	n := np + c.Guards
+	o.Class(fmt.Sprintf("holes-%d", holes))
+	s := solver.New(solver.ParseSliceNb(oracle.CloneCNF(cls), n))
+	all := oracle.CloneCNF(cls)
+	falsified := make([]bool, c.Guards)
+	solve := func(when string) error {
+		st := s.Solve()
+		wantUnsat := true
+		for g := 0; g < c.Guards; g++ {
+			if usedGuard[g] && !falsified[g] {
+				wantUnsat = false
+			}
+		}
+		o.ClassIf(s.Stats.NbRestarts > 0, "restart>0")
+		o.ClassIf(s.Stats.NbDeleted > 0, "reduceDB>0")
+		if wantUnsat != (st == solver.Unsat) {
+			return fmt.Errorf("%s: Solve = %v, but the conjunction is unsatisfiable=%v by construction (%d conflicts, %d restarts so far)", when, st, wantUnsat, s.Stats.NbConflicts, s.Stats.NbRestarts)
+		}
+		if st == solver.Sat {
+			m := s.Model()
+			if i := oracle.ModelSatisfies(all, m); i >= 0 {
+				return fmt.Errorf("%s: the model violates %v, clause %d of the conjunction (%d conflicts, %d restarts so far)", when, all[i], i, s.Stats.NbConflicts, s.Stats.NbRestarts)
+			}
+		}
+		return nil
+	}
+	if err := solve("first solve"); err != nil {
+		return err
+	}
+	next := n
+	for k, g := range c.Order {
+		g %= c.Guards
+		unit := []int{-(np + 1 + g)}
+		s.AppendClause(solver.NewClause([]solver.Lit{solver.IntToLit(int32(unit[0]))}))
+		all = append(all, unit)
+		falsified[g] = true
+		if k < len(c.Extra) && c.Extra[k] != 0 {
+			next++
+			cl := []int{next, -(1 + (c.Extra[k]-1)%np)}
+			s.AppendClause(solver.NewClause([]solver.Lit{solver.IntToLit(int32(cl[0])), solver.IntToLit(int32(cl[1]))}))
+			all = append(all, cl)
+		}
+		if err := solve(fmt.Sprintf("after falsifying %d guard(s)", k+1)); err != nil {
+			return err
+		}
+	}
+	if s.Stats.NbConflicts >= 200 {
+		o.Nontrivial()
+	}
+	return nil
+}
+
+func genGH(t *rapid.T) GHCase {
+	c := GHCase{Holes: rapid.SampledFrom([]int{5, 6, 6, 7}).Draw(t, "holes"), Guards: rapid.IntRange(1, 3).Draw(t, "guards")}
+	for i, k := 0, rapid.IntRange(1, 7).Draw(t, "pattern"); i < k; i++ {
+		c.GuardOf = append(c.GuardOf, rapid.IntRange(0, c.Guards-1).Draw(t, "g"))
+	}
+	c.Order = rapid.Permutation(seqInts(0, c.Guards-1)).Draw(t, "order")
+	for range c.Order {
+		c.Extra = append(c.Extra, rapid.IntRange(0, 9).Draw(t, "extra"))
+	}
+	if rapid.Bool().Draw(t, "low") {
+		c.NbMax = rapid.IntRange(20, 300).Draw(t, "limit")
+	}
+	return c
+}
+
+func seqInts(lo, hi int) []int {
+	var s []int
+	for i := lo; i <= hi; i++ {
+		s = append(s, i)
+	}
+	return s
+}
+
 func min(a, b int) int {
 	if a < b {
 		return a
@@ -386,6 +502,12 @@ func init() {
 		vf.Sub[Case]{Name: "card-base", Quick: 8000, Thorough: 100000, Gen: genCase("card"), Check: check, Floor: 0.4, Rule: "base cardinality problem via ParseCardConstrs" + tail},
 		vf.Sub[Case]{Name: "pb-base", Quick: 8000, Thorough: 100000, Gen: genCase("pb"), Check: check, Floor: 0.4, Rule: "base PB problem via ParsePBConstrs" + tail},
 	)
+}
+
+func init() {
+	vf.Register(vf.Sub[GHCase]{Name: "guarded-pigeonhole", Quick: 40, Thorough: 400, Gen: genGH, Check: checkGH, Floor: 0.5,
+		Classes: map[string]float64{"restart>0": 0.4},
+		Rule: "base = pigeonhole formula with 5..7 holes whose clauses each carry one of 1..3 guard literals; history: Solve, then for each guard in a drawn order: AppendClause of the unit clause falsifying it (sometimes also a clause over a new variable), Solve; the pigeonhole formula being minimally unsatisfiable, each verdict is known by construction (Unsat exactly when every guard is falsified) and every Sat model is evaluated on the whole conjunction; the last solves take hundreds to thousands of conflicts, with restarts and reductions, on a solver that has solved and been extended before; non-trivial = >= 200 conflicts in all"})
 }
 
 func TestMain(m *testing.M)   { vf.Main(m, "C09") }
